@@ -27,6 +27,26 @@ func prRet() (prT, int) {
 	v, r := prRet()
 	println(v.a, r)
 '''),
+    ("C01-large-value-boxed-after-store", '''
+type prBig struct {
+	A   int
+	Pad [200000]int64
+}
+
+var prG prBig
+
+func prBox() any {
+	p := &prG
+	v := *p
+	p.A = 7
+	var i any = v
+	return i
+}
+''', '''
+	prG.A = 1
+	i := prBox()
+	println(i.(prBig).A, prG.A)
+'''),
 ]
 
 
